@@ -127,6 +127,15 @@ CHECKS = {
             "operands sharing state names, the same object twice); relations compared on all inputs up to length 3, both "
             "on the recorded structure of the result and on what translate() yields on it.",
             "Trusted: TLC, projection. Input words up to length 3; translate consumed under a budget.", "DESIGN.md section 3 C16"),
+    "C17": ("TLA+ indexed-grammar generator (IGGen) enumerated by TLC; is_empty() replayed for permutations of the rule "
+            "list x optim 0..8, after remove_useless_rules and for intersections with spec-generated automata; verdicts "
+            "and the public `marked` sets judged by TraceIG with IGSem (productive-set transformers, a decision "
+            "procedure independent of Aho's marking; product construction for intersections)",
+            "Exhaustive within small constants (end, production, consumption and duplication rules; several consumption "
+            "rules for one index and variable; recursion through the stack), every permutation (up to a cap) and every "
+            "ordering heuristic; each verdict is compared with an exact decision, and every marked set is checked sound.",
+            "Trusted: TLC; the oracle is model-checked against the full fixpoint on the 3-rule family (LazyOK).",
+            "DESIGN.md section 3 C17"),
 }
 
 NOT_YET = "check not built yet in this round (see DESIGN.md section 9, build order); no claim is made"
